@@ -1,6 +1,7 @@
 """C08 Malformed input fails cleanly: only library errors, always terminates (DESIGN 4/C08)."""
 import io
 import itertools
+import sys
 
 from pyasn1.codec.ber import decoder as ber_decoder
 from pyasn1.codec.cer import decoder as cer_decoder
@@ -105,6 +106,55 @@ def huge_real_inputs():
     return out
 
 
+def _huge_specs():
+    from pyasn1.type import constraint, namedtype, namedval
+    return {
+        'INTEGER (0..10)': univ.Integer().subtype(subtypeSpec=constraint.ValueRangeConstraint(0, 10)),
+        'SEQUENCE (SIZE (2..3)) OF INTEGER': univ.SequenceOf(componentType=univ.Integer()).subtype(
+            subtypeSpec=constraint.ValueSizeConstraint(2, 3)),
+        'ENUMERATED { a(0), b(1) }': univ.Enumerated(namedValues=namedval.NamedValues(('a', 0), ('b', 1))),
+        'BIT STRING (SIZE (1..8))': univ.BitString().subtype(subtypeSpec=constraint.ValueSizeConstraint(1, 8)),
+        'OBJECT IDENTIFIER (1.3)': univ.ObjectIdentifier().subtype(subtypeSpec=constraint.SingleValueConstraint((1, 3))),
+        'SEQUENCE { a INTEGER (0..10), b OCTET STRING OPTIONAL }': univ.Sequence(componentType=namedtype.NamedTypes(
+            namedtype.NamedType('a', univ.Integer().subtype(subtypeSpec=constraint.ValueRangeConstraint(0, 10))),
+            namedtype.OptionalNamedType('b', univ.OctetString()))),
+        'OCTET STRING': univ.OctetString(),
+    }
+
+
+for _name, _obj in _huge_specs().items():
+    CUSTOM_SPECS[_name] = (lambda name=_name: _huge_specs()[name])
+
+
+def huge_integer_inputs():
+    """Well-formed and damaged encodings in which one integer-valued field (INTEGER / ENUMERATED contents, a tag
+    number, a BIT STRING, an OID arc, a REAL mantissa) is longer than the 4300 decimal digits beyond which CPython
+    refuses int -> str conversion by default: whatever the decoder prints about them must not turn into ValueError."""
+    def tlv(tag, content):
+        n = len(content)
+        ln = bytes([n]) if n < 128 else bytes([0x80 | len(n.to_bytes((n.bit_length() + 7) // 8, 'big'))]) + n.to_bytes((n.bit_length() + 7) // 8, 'big')
+        return tag + ln + content
+    big = 1900
+    pos = b'\x7f' + b'\xff' * (big - 1)
+    neg = b'\x80' + b'\x00' * (big - 1)
+    out = []
+    for c in (pos, neg):
+        out.append(tlv(b'\x02', c))
+        out.append(tlv(b'\x0a', c))
+        out.append(tlv(b'\x30', tlv(b'\x02', c)))
+        out.append(tlv(b'\x30', tlv(b'\x02', c) + tlv(b'\x02', b'\x01')))
+    longtag = b'\x9f' + b'\xff' * 2100 + b'\x7f'
+    out.append(tlv(longtag, b'\x01'))
+    out.append(tlv(b'\xbf' + b'\xff' * 2100 + b'\x7f', tlv(b'\x02', b'\x01')))
+    out.append(tlv(b'\x30', tlv(longtag, b'\x01')))
+    out.append(tlv(b'\x03', b'\x00' + b'\xff' * big))
+    out.append(tlv(b'\x03', b'\x07' + b'\xff' * (big - 1) + b'\x80'))
+    out.append(tlv(b'\x06', b'\x2b' + b'\xff' * 2100 + b'\x7f'))
+    out.append(tlv(b'\x09', b'\x80\x00' + b'\x7f' + b'\xff' * (big - 1)))
+    out.append(tlv(b'\x30', tlv(b'\x09', b'\x80\x00' + b'\x7f' + b'\xff' * (big - 1))))
+    return out
+
+
 class CountingBytesIO(io.BytesIO):
     reads = 0
 
@@ -132,8 +182,13 @@ def shape_problem(obj):
     return None
 
 
-def run_input(res, sc, data, T, schema, origin):
+INT_STR_LIMIT = 4300      # CPython's default sys.get_int_max_str_digits() since 3.11 (the harness itself runs with 0)
+
+
+def run_input(res, sc, data, T, schema, origin, strlimit=False):
     feats0 = {'origin:' + origin, 'spec:' + ('none' if T is None else 'given')}
+    if strlimit:
+        feats0 |= {'huge-integer-field', 'interpreter-int-str-limit'}
     n = len(data)
     for dname, dec in DEC:
         for mode in ('oneshot', 'stream'):
@@ -148,6 +203,9 @@ def run_input(res, sc, data, T, schema, origin):
             guard = M.cpu_guard(CPU_LIMIT if GUARD_FIRED[0] < 2 else 1.0)
             guard.__enter__()
             try:
+                if strlimit:
+                    # the interpreter's default: int <-> str conversions beyond 4300 digits raise ValueError
+                    sys.set_int_max_str_digits(INT_STR_LIMIT)
                 if mode == 'oneshot':
                     r = dec.decode(stream, asn1Spec=schema) if schema is not None else dec.decode(stream)
                     if not (isinstance(r, tuple) and len(r) == 2):
@@ -182,6 +240,7 @@ def run_input(res, sc, data, T, schema, origin):
                             res.witness('stream:more-objects-than-octets', feats, case, k)
                             break
             except M.CpuBudgetExceeded:
+                sys.set_int_max_str_digits(0)
                 GUARD_FIRED[0] += 1
                 outcome = 'cpu-budget'
                 res.witness('cpu-time-bound-exceeded', feats, case,
@@ -193,13 +252,21 @@ def run_input(res, sc, data, T, schema, origin):
                 outcome = 'leak'
                 res.witness('%s:leak:RecursionError' % mode, feats, case, 'depth-bounded input')
             except Exception as ex:
+                sys.set_int_max_str_digits(0)
                 c = H.classify_exception(ex)
                 if isinstance(c, tuple):
                     outcome = 'leak'
-                    res.witness('%s:leak:%s' % (mode, c[1]), feats, case, ex)
+                    if (strlimit and type(ex) is ValueError and str(ex).startswith('Exceeds the limit (%d digits) for integer string conversion' % INT_STR_LIMIT)):
+                        # one mechanism, many sites: an error message (or repr) formats an integer taken from the input
+                        outcome = 'leak-int-str-limit'
+                        res.see_in('int-str-limit-leak-sites', c[1])
+                        res.witness('%s:leak:ValueError:int-str-conversion-limit' % mode, feats, case, ex)
+                    else:
+                        res.witness('%s:leak:%s' % (mode, c[1]), feats, case, ex)
                 else:
                     outcome = c
             finally:
+                sys.set_int_max_str_digits(0)
                 guard.__exit__(None, None, None)
                 steps = sc.count
                 sc.budget = None
@@ -320,6 +387,15 @@ def run_shard(shard, tier, seed):
             for name, sch in customs:
                 run_input(res, sc, data, name, sch, 'huge-real')
             res.see('huge-real-inputs')
+        # (vi) integer-valued fields beyond 4300 decimal digits, decoded under the interpreter's default int -> str limit
+        hspecs = [(name, CUSTOM_SPECS[name]()) for name in sorted(_huge_specs())]
+        for j, data in enumerate(huge_integer_inputs()):
+            if j % shard['nshards'] != shard['shard']:
+                continue
+            run_input(res, sc, data, None, None, 'huge-integer', strlimit=True)
+            for name, sch in hspecs:
+                run_input(res, sc, data, name, sch, 'huge-integer', strlimit=True)
+            res.see('huge-integer-inputs')
         budget = C.Budget(tier, quick=40.0)
         # (ii) mutated encodings and (iii) grammar trees
         for i in range(shard['n']):
@@ -382,7 +458,8 @@ def replay(case):
     sc.start()
     try:
         schema = None if T is None else (CUSTOM_SPECS[T]() if isinstance(T, str) else B.schema(T))
-        run_input(res, sc, bytes.fromhex(hexdata), T, schema, 'replay')
+        data = bytes.fromhex(hexdata)
+        run_input(res, sc, data, T, schema, 'replay', strlimit=data in huge_integer_inputs())
     finally:
         sc.stop()
     res.witnesses = [w for w in res.witnesses if ("'%s', '%s'" % (dname, mode)) in w['case']]
